@@ -61,6 +61,11 @@ def params_of(d):
 # ----------------------------------------------------------------------------------------------
 REC_FIELDS = [("x", "f8", None), ("id", "i4", None), ("v", "f4", (2,)), ("s", "S3", None), ("b", "i8", None)]
 RECNUM_FIELDS = [("x", "f8", None), ("id", "i4", None), ("v", "f4", (2,)), ("h", "i2", None)]
+# tables for the record-file writers: the options the C writer reads (padnull, ignorenull, bracket_arrays, delim) only matter for
+# string fields with short / empty / full-width values and embedded NULs, and for sub-array fields (numeric, 2-d numeric, string)
+RECIO_FIELDS = [("x", "f8", None), ("id", "i4", None), ("v", "f4", (2,)), ("s", "S5", None), ("t", "S3", (2,)), ("m", "i2", (2, 2)),
+                ("e", "S1", None), ("b", "i8", None)]
+S_VALUES = [b"", b"a", b"ab\0cd", b"abcde", b"abc", b"\0\0z", b"q\0"]
 REC2_FIELDS = [("y", "f8", None), ("k", "i2", None), ("m", "f4", (3,))]
 
 
@@ -80,12 +85,16 @@ def rec_dtype(fields, order):
 
 
 def fill_rec(a, rs):
+    import numpy as np
     names = a.dtype.names
     flat = a.reshape(-1)
     for n in names:
         f = flat[n]
         k = f.dtype.kind
-        if k == "S":
+        if k == "S" and "e" in names:       # recio: short, empty, full-width values and embedded NULs (truncated to the field width)
+            vals = np.array([S_VALUES[(i + len(n) - 1) % len(S_VALUES)][:f.dtype.itemsize] for i in range(f.size)], dtype=f.dtype)
+            f[...] = vals.reshape(f.shape)
+        elif k == "S":
             f[...] = [b"ab%d" % (i % 7) for i in range(flat.size)]
         elif k == "f":
             f[...] = rs.uniform(-50, 50, size=f.shape)
@@ -162,6 +171,8 @@ def make_array(kind, dt, order, layout, nd, rs, nelem=6):
     # ---- dtype
     if kind in ("rec", "rec_like"):
         dtype = rec_dtype(REC_FIELDS, order)
+    elif kind == "recio":
+        dtype = rec_dtype(RECIO_FIELDS, order)
     elif kind == "recnum":
         dtype = rec_dtype(RECNUM_FIELDS, order)
     elif kind == "rec2":
@@ -453,7 +464,10 @@ LIMITATIONS = [
     "C / C++ extension code is NOT modelled in Coq: the C-entry-point table says which arguments each entry point writes; the table is compared on "
     "every run with a SYNTACTIC scan of chist_pywrap.c, cosmolib_pywrap.c and htmc.cc (c15_translate.c_scan: stores through pointers obtained "
     "from PyArray_DATA / PyArray_GETPTRn of an argument, memcpy-like callees, pointer escapes; no preprocessor, no aliasing through structs) "
-    "and validated dynamically; records.cpp (the record-file writer) is covered dynamically only",
+    "and validated dynamically; records.cpp (the record-file writer): its WRITE path (call-graph closure of Records::Write) is scanned the same way "
+    "for stores through mData / pointers derived from the caller's data buffer (c15_translate.records_write_scan, fail closed) and every writer "
+    "option the C code reads (delim, padnull, ignorenull, bracket_arrays, open mode) is driven through every python entry point on tables whose "
+    "string fields make the option matter; the read path of records.cpp is outside C15",
     "skeleton semantics: one abstract buffer per array object; views into the SAME buffer are the same abstract buffer, so a write to a "
     "disjoint part of a shared buffer counts as a write (sound, may be imprecise); memory reachable only through object-dtype elements is not modelled",
 ]
@@ -606,7 +620,11 @@ def inventory_step(ctx):
     ctx.count("c_scan:entry_points_writing_an_argument", sum(1 for v in found.values() if v))
     ctx.obligation("C source scan (chist_pywrap.c, cosmolib_pywrap.c, htmc.cc): no entry point stores through an array argument "
                    "that the C entry-point table declares read-only, no unreviewed pointer escape", not wprob, "; ".join(wprob[:6]))
-    cprob = cprob + wprob
+    closure, rprob = tr.records_write_scan(ctx.impl)
+    ctx.count("records_scan:functions_in_write_path", len(closure))
+    ctx.obligation("records.cpp write path (call-graph closure of Records::Write: %s): no store through mData / a pointer derived from "
+                   "the caller's data buffer, no unreviewed escape of it" % ", ".join(closure), not rprob, "; ".join(rprob[:6]))
+    cprob = cprob + wprob + rprob
     ctx.obligation("C entry-point table names every public method of the wrapped C++ classes", not cprob, "; ".join(cprob[:6]))
     if cprob:
         ctx.violation("the C entry-point table of the C15 extractor no longer matches the wrapped sources: " + cprob[0],
